@@ -136,7 +136,11 @@ def body_deletions(text, rules):
         a, b = _swallow_line(text, mt.start(), end)
         dels.append((a, b))
         rules.append(('D2', norm_ws(text[mt.start():mt.end()]), ''))
-    dels.sort()
+    # D6: the empty `vec![]` macro call is replaced by the equivalent `Vec::new()` (unit preludes shadow std's Vec)
+    for mt in re.finditer(r'\bvec!\s*\[\s*\]', m):
+        dels.append((mt.start(), mt.end(), 'Vec::new()'))
+        rules.append(('D6', 'vec![] -> Vec::new()', ''))
+    dels.sort(key=lambda d: (d[0], d[1]))
     return dels
 
 
@@ -282,7 +286,10 @@ class Extractor:
             for mt in re.finditer(r'=[^,}]*', mm[b0:]):
                 dels.append((b0 + mt.start(), b0 + mt.end()))
                 rules.append(('D5', 'discriminant dropped', norm_ws(body[b0 + mt.start():b0 + mt.end()])))
-        dels.sort()
+        # drop insertions that fall inside a deleted region (e.g. `pub ` for a cfg-gated field)
+        real = [d for d in dels if len(d) == 2]
+        dels = real + [d for d in dels if len(d) > 2 and not any(a <= d[0] < b for a, b in real)]
+        dels.sort(key=lambda d: (d[0], d[1]))
         out += _apply_deletions(body, start + off, dels)
         out.append(Seg('\n'))
         self.records.append(dict(kind=kind, name=name, file=rel, lines=[S.line_of(start), S.line_of(end - 1)],
@@ -321,7 +328,7 @@ class Extractor:
             tend = arrow + wm.start() if wm else len(sig)
             ty = sig[arrow + 2:tend].strip()
             retname = opts.get('ret', 'ret')
-            pre = _apply_deletions(sig[:arrow], sig_start, [(a, b) for a, b in sig_dels if b <= arrow])
+            pre = _apply_deletions(sig[:arrow], sig_start, [d for d in sig_dels if d[1] <= arrow])
             segs += pre
             segs.append(Seg(f'-> ({retname}: {ty})\n'))
             if wm:
@@ -361,12 +368,14 @@ class Extractor:
                 rules.append(('E2', f'loop {k} invariant', f'{len(inv.splitlines())} lines'))
         # combine deletions and insertions
         pos = 0
-        events = sorted([(a, 0, b, None) for a, b in dels] + [(p, 1, p, inv) for p, inv in inserts])
+        events = sorted([(d[0], 0, d[1], d[2] if len(d) > 2 else None) for d in dels] + [(p, 1, p, inv) for p, inv in inserts])
         base = f['body_open']
         for a, kind_, b, inv in events:
             if a > pos:
                 segs.append(Seg(body[pos:a], base + pos))
             if kind_ == 0:
+                if inv is not None:
+                    segs.append(Seg(inv))
                 pos = max(pos, b)
             else:
                 segs.append(Seg('\n' + inv.rstrip('\n') + '\n'))
